@@ -27,6 +27,9 @@ func ModStmts() []Stmt {
 	add("module", "// Deprecated: use example.com/n\nmodule example.com/m\n")
 	add("module", "// intro\n// Deprecated: two\n// lines\nmodule example.com/m // s\n")
 	add("module", "module (\n\texample.com/m\n)\n")
+	add("module", "module \"example.com/\\x6d\"\n")
+	add("module", "module \"example.com/\\u006d\" // s\n")
+	add("module", "module \"example.com\\x2fm\\057v2\"\n")
 	add("module", "module example.com/m/v2\n")
 	// go / toolchain
 	add("go", "go 1.21\n")
